@@ -36,9 +36,12 @@ engines, with no bound on anything. Ghost fields: `acts` (activation counter per
   the delay being the one resolved at arming; by the invariant the owner is active and has not been
   left since the timer was armed (`after_sound_quiescent`: if the interpreter is idle the expiry is the
   next event it processes, in that very configuration).
-* `after_once_per_activation` — a delivered timer is never armed again and never delivered twice;
-  one `_schedule_state_tasks` call arms exactly one timer per resolvable `after` transition
-  (`one_timer_per_transition`), and it is called exactly once per entry (`one_schedule_per_entry`).
+* `after_once_per_activation` — a delivered timer is never armed again and never delivered twice, and
+  per (state, ACTIVATION, DELAY KEY) at most one expiry is ever delivered (and no second timer is armed
+  for a key whose expiry was delivered): the transition set of a delay key gets at most one expiry per
+  activation of its state. One `_schedule_state_tasks` call arms exactly one timer per DELAY KEY whose
+  delay resolves, however many guarded alternatives the key lists (`one_timer_per_delay_key`), and it
+  is called exactly once per entry (`one_schedule_per_entry`).
 * `never_after_exit_or_stop` — after the exit step of `p` NO timer (and no service task) of `p` is
   left — all of them (`independent_timers`: and nobody else's is touched; delivering one timer leaves
   every other one armed); after `stop()` nothing at all is left.
@@ -50,7 +53,7 @@ engines, with no bound on anything. Ghost fields: `acts` (activation counter per
   invokes nothing, the runtime layer's transition / event / drain functions act on the `St` component
   exactly like the engine model's, so every theorem about the engine model transfers.
 
-## Disproved (the property is FALSE of model and code) — findings F6 and F55
+## Disproved (the property is FALSE of model and code) — finding F6
 
 The invariant is about ARMED timers. An expiry that has already been DELIVERED sits in the event
 queue as an `AfterEvent` carrying only a type string; the queue is not purged on exit, and the
@@ -59,11 +62,17 @@ candidate collection matches it by type. Hence:
   that re-enters the owner, the transition fires at t = 110 ms, 0 ms after the re-entry, although the
   delay is 100 ms; the delivered timer belonged to activation 1, the state is in activation 2.
   `RTEx.runAfterIdle` shows the same inputs restart the delay when the interpreter is not busy.
-* `alternatives_fire_once_each` (F55, `decide`d on `RTEx.mAlts`): one delay with two alternatives arms
-  two timers with the same event type; the winning (targetless) alternative runs twice in ONE
-  activation. `after_once_per_activation` above is therefore a statement about timers, not about
-  transitions.
-Both are reproduced on the real code by the check (`findings/F6_*.json`, `findings/F55_*.json`).
+It is reproduced on the real code by the check (`findings/F6_*.json`). `after_once_per_activation` above is
+therefore a statement about expiries DELIVERED (timers), not about events processed: a stale queued
+expiry of an earlier activation can still be matched by a later one.
+
+## Repaired in the library — finding F55
+One delay key with several guarded alternatives used to arm one timer PER ALTERNATIVE, all with the same
+event type; each expiry selected the first alternative whose guard passes, so the winning (targetless)
+alternative ran once per listed alternative in ONE activation. The library now arms one timer per delay
+key (`for t_def in transitions[:1]`); the model follows (`afterArms`), the former counterexample
+theorem is `alternatives_fire_once_fixed` on the same witness (`RTEx.mAlts`: the winner runs once), and
+the per-(activation, delay key) clause of `after_once_per_activation` is what the repair made provable.
 
 ## Only validated, not proved
 
@@ -79,8 +88,10 @@ Both are reproduced on the real code by the check (`findings/F6_*.json`, `findin
 
 Real clocks and OS scheduling; GIL-level interleavings of the sync engine's timer threads (the model
 and the shim run one thread at a time); asyncio internals beyond "timer handles fire in (deadline,
-creation) order, ready callbacks are FIFO"; `stop()` or an external event arriving while `start()` is
-still inside a slow entry action (the real run loop already consumes events then — observed, reported).
+creation) order, ready callbacks are FIFO". (An external event arriving while `start()` is still
+inside a slow entry action IS in the model and in the generator since the library creates the run loop
+only after the initial entry has settled — `loopCreated`: the event waits in the queue; `stop()` during
+`start()` is not generated.)
 -/
 namespace XSM.C08
 open XSM XSM.RTP
@@ -103,10 +114,10 @@ theorem timers_current (fl : Flavor) (m : Machine) (u : UEnv) (r : REnv) (agenda
     one event, the run loops, an external input, a wake-up, letting time pass. -/
 theorem invariant_preserved (c : RCx) (hw : WndOK c) (h : Hooks) (hok : HooksOK h) (rt : RT) (hi : Inv rt) :
     (∀ ev pl, Inv (executeRT c h ev pl rt)) ∧ (∀ ev, Inv (processEventRT c h ev rt)) ∧
-    (∀ e, Inv (asyncStepRT c e rt)) ∧ (∀ e, Inv (syncSendRT c e rt)) ∧
+    (∀ q, Inv (asyncStepRT c q rt)) ∧ (∀ e, Inv (syncSendRT c e rt)) ∧
     (∀ op, Inv (extIdle c op rt)) ∧ (∀ T fuel, Inv (advanceTo c T fuel rt)) ∧ (∀ d, Inv (c.wnd d rt)) :=
   ⟨fun ev pl => (keeps_execute c hw h hok ev pl rt).inv hi, fun ev => (keeps_processEvent c hw h hok ev rt).inv hi,
-   fun e => (keeps_asyncStep c hw e rt).inv hi, fun e => (keeps_syncSend c hw e rt).inv hi,
+   fun q => (keeps_asyncStep c hw q rt).inv hi, fun e => (keeps_syncSend c hw e rt).inv hi,
    fun op => (keeps_extIdle c hw op rt).inv hi, fun T fuel => (keeps_advanceTo c hw T fuel rt).inv hi,
    fun d => (hw d rt).inv hi⟩
 
@@ -146,27 +157,52 @@ theorem after_sound_quiescent (rt : RT) (g : Good rt) (t : Timer) (ht : t ∈ rt
 
 /-- *Clause "at most once per activation" — at the level of timers.* After every run: the delivered
     timers are pairwise different tasks, and none of them is armed any more (so none can be delivered
-    again). -/
+    again); moreover, per (state, activation of that state, delay key) — `tkey t = (t.owner, t.act,
+    t.slot)`, `slot` being the index of the delay key among the state's arming keys — AT MOST ONE expiry
+    has been delivered, at most one timer is armed, and no timer is armed for a key whose expiry was
+    already delivered in that activation. -/
 theorem after_once_per_activation (fl : Flavor) (m : Machine) (u : UEnv) (r : REnv) (agenda : List (Nat × ExtOp)) (horizon fuel : Nat)
     (hc : (runRT fl m u r agenda horizon fuel).clean = true) :
     ((runRT fl m u r agenda horizon fuel).fired.map (·.seq)).Nodup ∧
     ((runRT fl m u r agenda horizon fuel).timers.map (·.seq)).Nodup ∧
-    ∀ t ∈ (runRT fl m u r agenda horizon fuel).timers, ∀ f ∈ (runRT fl m u r agenda horizon fuel).fired, t.seq ≠ f.seq :=
+    (∀ t ∈ (runRT fl m u r agenda horizon fuel).timers, ∀ f ∈ (runRT fl m u r agenda horizon fuel).fired, t.seq ≠ f.seq) ∧
+    ((runRT fl m u r agenda horizon fuel).fired.map (fun t => (t.owner, t.act, t.slot))).Nodup ∧
+    ((runRT fl m u r agenda horizon fuel).timers.map (fun t => (t.owner, t.act, t.slot))).Nodup ∧
+    (∀ t ∈ (runRT fl m u r agenda horizon fuel).timers, ∀ f ∈ (runRT fl m u r agenda horizon fuel).fired,
+      (t.owner, t.act, t.slot) ≠ (f.owner, f.act, f.slot)) ∧
+    (∀ f ∈ (runRT fl m u r agenda horizon fuel).fired, f.act ≤ actOf (runRT fl m u r agenda horizon fuel).acts f.owner) :=
   ⟨(inv_runRT fl m u r agenda horizon fuel hc).ndF, (inv_runRT fl m u r agenda horizon fuel hc).ndT,
-   (inv_runRT fl m u r agenda horizon fuel hc).disj⟩
+   (inv_runRT fl m u r agenda horizon fuel hc).disj,
+   (inv_runRT fl m u r agenda horizon fuel hc).keys.1, (inv_runRT fl m u r agenda horizon fuel hc).keys.2.1,
+   (inv_runRT fl m u r agenda horizon fuel hc).keys.2.2, (inv_runRT fl m u r agenda horizon fuel hc).actF⟩
 
-/-- one `_schedule_state_tasks` call arms exactly one timer per resolvable `after` transition, each
-    with the transition's event type and the resolved delay, all for the current activation and armed
-    at the current time -/
-theorem one_timer_per_transition (c : RCx) (h : Hooks) (p : Path) (d : StateDef) (rt : RT) :
+/-- one `_schedule_state_tasks` call arms exactly ONE timer PER DELAY KEY of the state whose delay resolves
+    (and that lists a transition) and none for the other keys, in key order — however many guarded
+    alternatives a key lists: the new timers are, key by key, `armOfKey` of the key (the event type of the
+    key's first alternative — all alternatives of a key share `after.<delay>.<id>` — with the resolved
+    delay), their `slot`s number the arming keys 0, 1, …, so there are at most as many as delay keys, and
+    all are for the current activation and armed at the current time -/
+theorem one_timer_per_delay_key (c : RCx) (h : Hooks) (p : Path) (d : StateDef) (rt : RT) :
     ∃ new, (scheduleRT c h p d rt).timers = rt.timers ++ new ∧
-      new.map (fun t => (t.evType, t.delay)) = afterArms c.r d.after ∧
-      new.map (·.slot) = List.range' 0 (afterArms c.r d.after).length ∧
-      ∀ t ∈ new, t.owner = p ∧ t.act = actOf rt.acts p ∧ t.armed = rt.now :=
-  ⟨_, scheduleRT_timers c h p d rt, (mkTimers_data c.fl p _ rt.now rt.nextId _ 0).1, (mkTimers_data c.fl p _ rt.now rt.nextId _ 0).2,
-   fun t ht => by
-     obtain ⟨a1, a2, a3, _⟩ := (mkTimers_spec c.fl p (actOf rt.acts p) rt.now rt.nextId _ 0).1 t ht
-     exact ⟨a1, a2, a3⟩⟩
+      new.map (fun t => (t.evType, t.delay)) = d.after.filterMap (armOfKey c.r) ∧
+      new.map (·.slot) = List.range' 0 (d.after.filterMap (armOfKey c.r)).length ∧
+      new.length ≤ d.after.length ∧
+      ∀ t ∈ new, t.owner = p ∧ t.act = actOf rt.acts p ∧ t.armed = rt.now := by
+  refine ⟨_, scheduleRT_timers c h p d rt, ?_, ?_, ?_, fun t ht => ?_⟩
+  · rw [← afterArms_eq_filterMap]; exact (mkTimers_data c.fl p _ rt.now rt.nextId _ 0).1
+  · rw [← afterArms_eq_filterMap]; exact (mkTimers_data c.fl p _ rt.now rt.nextId _ 0).2
+  · have := congrArg List.length (mkTimers_data c.fl p (actOf rt.acts p) rt.now rt.nextId (afterArms c.r d.after) 0).1
+    rw [List.length_map] at this
+    rw [this]; exact afterArms_length_le c.r d.after
+  · obtain ⟨a1, a2, a3, _⟩ := (mkTimers_spec c.fl p (actOf rt.acts p) rt.now rt.nextId _ 0).1 t ht
+    exact ⟨a1, a2, a3⟩
+
+/-- what a delay key arms: nothing if its delay does not resolve or it lists no transition, else the one
+    timer (event type of its first alternative, resolved delay) -/
+theorem armOfKey_cases (r : REnv) (kv : String × List Trans) :
+    armOfKey r kv = match resolveDelay r kv.1, kv.2 with
+      | some d, t :: _ => some (t.event, d)
+      | _, _ => none := rfl
 
 /-- `_schedule_state_tasks` is called exactly once per entered state: the entries of a step list are
     the plan's entries, and every schedule step comes after the entry of its state -/
@@ -222,9 +258,10 @@ theorem reentry_restarts (c : RCx) (h : Hooks) (p : Path) (d : StateDef) (rt : R
     exact Or.inr ⟨a1, a2, a3, by simp [Timer.due, a3]⟩
 
 /-- *Clause "named or computed delays are resolved at entry".* What is armed for a state are the pairs
-    (event type, delay) of `afterArms`, i.e. for each `after` key whose delay resolves NOW … -/
+    (event type, delay) of `afterArms`, i.e. for each `after` key whose delay resolves NOW the event
+    type of the key's first alternative with that delay … -/
 theorem delay_resolved_at_entry (r : REnv) (after : List (String × List Trans)) (x : String × Nat) :
-    x ∈ afterArms r after ↔ ∃ kv ∈ after, ∃ d, resolveDelay r kv.1 = some d ∧ ∃ t ∈ kv.2, x = (t.event, d) :=
+    x ∈ afterArms r after ↔ ∃ kv ∈ after, ∃ d, resolveDelay r kv.1 = some d ∧ ∃ t, kv.2.head? = some t ∧ x = (t.event, d) :=
   mem_afterArms r after x
 
 /-- … where a numeric key is that number of milliseconds and any other key is looked up in the
@@ -272,11 +309,12 @@ theorem reentry_restarts_when_idle :
     runAfterIdle.timers.map (fun t => (t.act, t.armed, t.delay)) = [(2, 70, 100)] := by decide
 
 set_option maxRecDepth 100000 in
-/-- **F55.** Two alternatives under ONE delay arm two timers with the same event type; each expiry
-    selects the first alternative whose guard passes, so the (targetless) winner runs twice in one
-    activation. -/
-theorem alternatives_fire_once_each :
-    (runAlts.flush.log.reverse.filter (fun r => r.2 = "tick@after.100.m.s")).map (·.1) = [100, 100] ∧
-    actOf runAlts.acts ["s"] = 1 ∧ runAlts.fired.map (·.slot) = [1, 0] := by decide
+/-- **F55, repaired.** Two alternatives under ONE delay arm ONE timer; its expiry selects the first
+    alternative whose guard passes: the (targetless) winner runs once in the activation, one expiry was
+    delivered (for delay key 0), nothing is armed any more. (Before the repair: two timers, the winner ran
+    twice at t = 100 — the former counterexample theorem `alternatives_fire_once_each`.) -/
+theorem alternatives_fire_once_fixed :
+    (runAlts.flush.log.reverse.filter (fun r => r.2 = "tick@after.100.m.s")).map (·.1) = [100] ∧
+    actOf runAlts.acts ["s"] = 1 ∧ runAlts.fired.map (·.slot) = [0] ∧ runAlts.timers.map (·.slot) = [] := by decide
 
 end XSM.C08
